@@ -952,6 +952,7 @@ func (w *fdWalker) findTabs() *fdTabs {
 			// the fill loop: over all indices of S
 			var idx types.Object
 			var body []ast.Stmt
+			idxWrites := 1
 			switch lp := list[k+1].(type) {
 			case *ast.RangeStmt:
 				if lp.Tok != token.DEFINE || lp.Value != nil || lp.Key == nil {
@@ -985,6 +986,7 @@ func (w *fdWalker) findTabs() *fdTabs {
 					continue
 				}
 				body = lp.Body.List
+				idxWrites = 2 // its definition and its increment
 			default:
 				continue
 			}
@@ -1037,7 +1039,7 @@ func (w *fdWalker) findTabs() *fdTabs {
 					ok = false
 				}
 			}
-			if !ok || tab.elem == nil || writes[idx] != 1 {
+			if !ok || tab.elem == nil || writes[idx] != idxWrites {
 				continue
 			}
 			t.by[S] = tab
@@ -1294,6 +1296,25 @@ func (w *fdWalker) rangeTabAsFor(s *ast.RangeStmt) *ast.ForStmt {
 		return nil
 	}
 	return w.rangeIntAsFor(&ast.RangeStmt{For: s.For, Key: s.Key, Tok: s.Tok, TokPos: s.TokPos, Range: s.Range, X: tab.n, Body: s.Body})
+}
+
+// tabLen renders len(S) for a tabulated S.
+func (c *fdCtx) tabLen(e *ast.CallExpr) (string, bool) {
+	if c.w == nil || len(e.Args) != 1 {
+		return "", false
+	}
+	id, ok := fdUnparen(e.Fun).(*ast.Ident)
+	if !ok || id.Name != "len" {
+		return "", false
+	}
+	if b, isB := c.obj(id).(*types.Builtin); !isB || b.Name() != "len" {
+		return "", false
+	}
+	tab := c.w.tabOf(e.Args[0])
+	if tab == nil {
+		return "", false
+	}
+	return c.expr(tab.n), true
 }
 
 // tabElem renders S[j] for a tabulated S.
